@@ -23,6 +23,13 @@ RULE = ('T2: generated API-level requests and responses (all body source types, 
 	'text pieces, path and query; lengths 11..8192, 12288, 65535/65536 of content, pieces (chunk-size digits), piece counts, field values, reason, path segment, trailer value '
 	'(oracle-only above 1100 octets); every registered status, header field name, content / transfer coding, media-type codec name and method of the tables read from the tree, in three letter cases; '
 	'degenerate values of every field prepare() consults, of codings, body, reason, trailer, query. '
+	'Wave-4 classes: read-only observers (repr / str / bytes / len / bool / iteration / hash / == != < <= > >= and reflected / copy / deepcopy / attribute reads / in / dict / sorted / format) applied to message, '
+	'header collection, Body, composer, status, method, URI, protocol, trailer, the content object, a copy of the Body and a second Body on the same content before the first use and between two uses - '
+	'compared with a fresh message built from the data read BEFORE the observation; every public way to set (item bytes / text, setdefault, update, append, parse, dict assignment, merge, set_element) and to remove '
+	'(pop, del, clear, dict assignment) each field the framing depends on, and to supply the content (attribute, set, Body(), Body(mimetype), write, encode, iterencode); the media type announced by a caller-set '
+	'Content-Type (charsets in which the text has another length, quoted / upper case / duplicated / nested charset parameters, unknown and unencodable charsets) against content supplied as text pieces and '
+	'against the charset of the body; URI and field metacharacters and reserved names in path segments, query, field and trailer values, field names resembling the framing names, coding / Connection / Trailer '
+	'sets with one invalid member; the request target of every composed request is read against the origin-form grammar (RFC 3986 pchar / query). '
 	'non-trivial = distinct (kind, framing, source type, dropped?, coding, #ops) classes')
 EXHAUSTIVE = {'quick': False, 'thorough': False}
 TRUSTED = [
@@ -366,6 +373,10 @@ def oracle(c, o):
 				m = cr.read_http1(data, k == 'req', rfc_bodiless(c))
 			except cr.Malformed as exc:
 				return 'composed output is not a well-framed HTTP/1.x message: %s' % (exc,)
+			if k == 'req':
+				bad = target_syntax(m['start'].split(b' ')[1])
+				if bad:
+					return 'composed output is not a syntactically valid request: %s' % bad
 			payload = m['payload']
 			if c.get('coding') in ('gzip', 'deflate') and has_coding_header(m):
 				try:
@@ -380,7 +391,9 @@ def oracle(c, o):
 				return 'composing the prepared message again gives different octets (beyond the Date value)'
 	# non-destructive: the source still holds the content (unless the library drops the body by design)
 	if o.get('final_content') is not None and not (dropped(c) and any(op[0] == 'p' for op in c['ops'])):
-		if bytes.fromhex(o['final_content']) != content:
+		# (text pieces of a list stay text: the harness reads them back as UTF-8, whatever the charset of the body)
+		held = cr.body_content(dict(c['body'], charset=None)) if c['body']['t'] in ('list', 'tuple', 'gen') else content
+		if bytes.fromhex(o['final_content']) != held:
 			return 'the body source no longer holds the content after the operations'
 		if o['init']['fd'][0] in ('bytesio', 'file') and o.get('final_fd') != o['init']['fd']:
 			return 'the position of the body source is not restored: %r became %r' % (o['init']['fd'], o.get('final_fd'))
@@ -420,7 +433,7 @@ def nontrivial(c, o):
 	if k == 'body':
 		return (k, c['body']['t'], c['chunked'], c['coding'], min(len(cr.body_content(c['body'])) // 4096, 3))
 	if k == 'seq':
-		return (k, c['base']['k'], c['base']['body']['t'], tuple(tuple(mu[0] + ':' + str(mu[-1]) if mu[0] in ('body', 'status', 'method', 'rmethod', 'te', 'proto') else mu[0] for mu in seg['mut']) for seg in c['segs']),
+		return (k, c['base']['k'], c['base']['body']['t'], tuple(tuple(mu[0] + ':' + str(mu[-1]) if mu[0] in ('body', 'status', 'method', 'rmethod', 'te', 'proto', 'obs') else mu[0] + ':' + mu[1] if mu[0] in ('hvia', 'hrm') else mu[0] for mu in seg['mut']) for seg in c['segs']),
 			tuple(len(seg['ops']) for seg in c['segs']))
 	if 'ops' not in o:
 		return None
@@ -502,6 +515,9 @@ def sym_mut(st, mu):
 		st['body'] = dict(mu[1])
 		st['content'] = cr.body_content(mu[1])
 		st['attached'] = True
+		if mu[2] == 'iterencode':
+			# Body.iterencode hands the pieces to the codec of the body's media type: a generator of encoded pieces
+			st['body'] = {'t': 'gen', 'items': [x.hex() for x in cr.body_items(mu[1])], 'strs': [False] * len(mu[1]['items'])}
 	elif t == 'grow':
 		st['content'] += bytes.fromhex(mu[1])
 		b = st['body']
@@ -524,6 +540,14 @@ def sym_mut(st, mu):
 		st['ce'] = mu[1].encode('ascii') if mu[1] else None
 	elif t == 'te':
 		st['te'] = None   # exactly 'chunked' or absent
+	elif t == 'hvia':
+		sym_hdr(st, mu[2], bytes.fromhex(mu[3]))
+	elif t == 'hrm':
+		if mu[1] in ('clear', 'set-empty'):
+			st['ce'] = st['te'] = None
+		else:
+			sym_hdr(st, mu[2], None)
+	# 'obs' (a read-only observer): nothing changes
 
 
 def sym_prepare(st):
@@ -661,6 +685,17 @@ def _apply(m, c, mu, uri, keep, others):
 			m.body = obj
 		elif mu[2] == 'set':
 			m.body.set(obj)
+		elif mu[2] == 'write':
+			m.body = None
+			m.body.write(obj)
+		elif mu[2] in ('encode', 'iterencode'):
+			# the codec of the body's media type (text/plain by default) produces the octets, in the charset of the body
+			m.body = None
+			if mu[1].get('charset'):
+				m.body.encoding = mu[1]['charset']
+			getattr(m.body, mu[2])(obj)
+		elif mu[2] == 'ctor-mime':
+			m.body = Body(obj, mimetype='text/plain; charset=%s' % mu[1]['charset'])
 		else:
 			m.body = Body(obj)
 	elif t == 'grow':
@@ -687,6 +722,12 @@ def _apply(m, c, mu, uri, keep, others):
 			del m.headers[mu[1]]
 	elif t == 'happend':
 		m.headers.append(mu[1], bytes.fromhex(mu[2]))
+	elif t == 'hvia':
+		_hvia(m, mu[1], mu[2], bytes.fromhex(mu[3]))
+	elif t == 'hrm':
+		_hrm(m, mu[1], mu[2])
+	elif t == 'obs':
+		_observe(m, c, mu[1], mu[2])
 	elif t == 'status':
 		code, reason, how = mu[1], mu[2], mu[3]
 		if how == 'int':
@@ -781,8 +822,11 @@ def run_seq(case):
 			for seg in case['segs']:
 				so = {'others': []}
 				obs['segs'].append(so)
+				snap0 = None
 				try:
 					for mu in seg['mut']:
+						if mu[0] == 'obs' and snap0 is None:
+							snap0 = _snapshot(m, c, st, uri)   # the data BEFORE anything was observed: what the fresh, never observed message is built from
 						_apply(m, c, mu, uri, keep, so['others'])
 						sym_mut(st, mu)
 				except Exception as exc:
@@ -812,7 +856,7 @@ def run_seq(case):
 				so['final_fd'] = cr.fd_obs(m.body)
 				# the same data in a fresh object, the same operations
 				try:
-					m2, c2 = _fresh(so['snap'], keep)
+					m2, c2 = _fresh(snap0 or so['snap'], keep)
 					so['fresh'] = _steps(m2, c2, seg['ops'], clock)
 				except Exception as exc:
 					so['fresh_raised'] = '%s: %s' % (type(exc).__name__, str(exc)[:120])
@@ -899,6 +943,15 @@ def coding_refusable(value, names):
 	return not all(x in names for x in toks) or len(toks) > 1 or b'"' in value or (b',' in value and b'chunked' not in names)
 
 
+def _state_key(state, observed):
+	"""what is compared between the used / observed message and the fresh one.  An observer may have walked a generator, which the library then
+	keeps as the list of its pieces (by design, same content): for observed segments the kinds 'gen' and 'list' of the source are not told apart"""
+	if not observed:
+		return state
+	fd = state['fd']
+	return dict(state, fd=['list'] if fd and fd[0] == 'gen' else fd)
+
+
 def oracle_seq(c, o):
 	base = c['base']
 	if not in_domain(base):
@@ -923,6 +976,7 @@ def oracle_seq(c, o):
 					return 'segment %d: a second message sharing the %s carries %d octets, the content has %d' % (n, spec['share'], len(m2['payload']), len(want2))
 			sym_mut(st, mu)
 		live = so['live']
+		observed = any(mu[0] == 'obs' for mu in seg['mut'])
 		if 'fresh_raised' in so:
 			return 'harness exception: building the fresh message: %s' % so['fresh_raised']
 		fresh = so['fresh']
@@ -942,7 +996,7 @@ def oracle_seq(c, o):
 				prepared = False
 				outs, states = [], []
 			if op[0] in ('p', 'ch'):
-				if a['state'] != b['state']:
+				if _state_key(a['state'], observed) != _state_key(b['state'], observed):
 					return 'segment %d: after %s the message used before differs from a fresh message with the same data: %r versus %r' % (n, what,
 						[(bytes.fromhex(x), bytes.fromhex(y)) for x, y in a['state']['hdrs']], [(bytes.fromhex(x), bytes.fromhex(y)) for x, y in b['state']['hdrs']])
 			if op[0] == 'p':
@@ -962,6 +1016,10 @@ def oracle_seq(c, o):
 					m = cr.read_http1(data, k == 'req', rfc_bodiless(st))
 				except cr.Malformed as exc:
 					return 'segment %d: composed output is not a well-framed HTTP/1.x message: %s' % (n, exc)
+				if k == 'req':
+					bad = target_syntax(m['start'].split(b' ')[1])
+					if bad:
+						return 'segment %d: composed output is not a syntactically valid request: %s' % (n, bad)
 				try:
 					payload = undo_codings(m)
 				except Exception as exc:
@@ -1318,4 +1376,374 @@ def gen_classes(rng, tier):
 		cases.append(_msg('req', hello, chunked=True, trailer=tr))
 	for q in ([], [['', '']], [['', 'v']], [['k', '']], [['&', '=']], [[' ', ' ']]):
 		cases.append(_msg('req', hello, query=q))
+	cases.extend(gen_classes4(rng, tier))
+	return cases
+
+
+# ================================================================ the classes of the fourth wave (DESIGN.md section 8, classes 7 - 9)
+# (7) read-only observers.  repr / str / bytes / len / bool / iteration / hash / every comparison operator (also reflected) / copy / deepcopy / every public
+#     attribute / in / dict / sorted / format applied to the message, its header collection, its Body, the composer, status, method, URI, protocol, the request
+#     of the response, the trailer, the content object the caller handed over, a copy.copy of the Body and a second Body made from it (objects that share state
+#     with the message) - BEFORE the message is used, and between two uses.  The data of the message is read BEFORE the first observer and put into a
+#     fresh message that is never observed: both are driven through the same operations and must agree in every header collection and every octet; the live
+#     output must satisfy the property for the content supplied.  (An observer that raises is still an observer: the exception is swallowed.)
+# (8) every member of an operator family: every public way to set a field (item assignment of bytes / of text, setdefault, update, append, parse, set_element,
+#     merge, assignment of a dict) and to remove it (pop with and without default, del, clear, assignment of an empty dict) for every field the framing
+#     depends on; every public way to supply the content (attribute, Body.set, Body(...), Body(..., mimetype), write, encode, iterencode); every comparison
+#     operator among the observers; both composer classes everywhere.
+# (9) metacharacters and reserved names: the media type ANNOUNCED by a caller-set Content-Type field (charset and other parameters, quoted, upper case,
+#     'charset' inside another parameter's value, unknown / unencodable charsets) against content supplied as TEXT pieces, which are encoded while the body is
+#     iterated, i.e. after the length was computed (the length and the octets must come from the same encoding, on the first prepare and on every later one);
+#     ':' '/' '?' '#' '@' '=' '&' ';' ',' '%' '"' and white space inside path segments, query names and values, field values and trailer values;
+#     field names that contain or resemble the framing names; sets with one invalid member (Content-Encoding, Connection, Trailer).
+#     The request target of every composed request is now also read against the origin-form grammar of RFC 7230 section 5.3.1 / RFC 3986 section 3.3, 3.4.
+
+import copy as _copy
+
+META = [':', '/', '?', '#', '@', '=', '&', ';', ',', '%', '"', ' ', '+', '\\', '<', '%2', '%zz', '%2f', '%00', '..', '*']
+RESERVED_NAMES = ['_charset_', 'charset', 'q', 'boundary', 'filename', 'realm', 'uri', 'bytes', 'chunked', 'gzip', 'close', 'Content-Length', 'Transfer-Encoding: chunked']
+NONASCII = ['grüße', 'ééé €', 'плохо', '日本語', 'áßÿ', 'héllo']
+ANNOUNCED = ['text/html; charset=ISO-8859-1', 'text/plain; charset=windows-1252', 'text/plain;charset=utf-16', 'TEXT/PLAIN; CHARSET=UTF-16LE', 'text/plain; charset="iso-8859-15"',
+	'application/json; charset=utf-32', 'text/plain; charset=us-ascii', 'text/plain; charset=koi8-r', 'text/plain; charset=shift_jis', 'text/plain; charset=UTF-8', 'text/plain',
+	'text/plain; charset=x-unknown', 'application/octet-stream', 'text/plain; charset=latin1', 'application/xml; charset=utf-7', 'text/plain; charset=cp437']
+ANNOUNCED_META = ['text/plain; x=charset; y="; charset=UTF-16"', 'multipart/form-data; boundary="a;charset=UTF-16"', 'text/plain; _charset_=UTF-16', 'text/plain; q=0.5; charset=ISO-8859-1',
+	'text/plain; boundary=charset', 'charset', 'text/plain; charset', 'text/plain; charset=', 'text/plain; charset=,', 'text/plain; charset=UTF-16, text/html', 'text/plain; charset=ISO-8859-1; charset=UTF-8',
+	'text/plain; charset=UTF-8; charset=ISO-8859-1', 'text/plain ; charset = ISO-8859-1', '; charset=ISO-8859-1', 'text/plain; filename="a.txt"; charset=utf-16be', '*/*; charset=ISO-8859-1']
+
+
+def _hvia(m, way, name, value):
+	h = m.headers
+	if way == 'item-bytes':
+		h[name] = value
+	elif way == 'item-text':
+		h[name] = value.decode('latin-1')
+	elif way == 'setdefault':
+		h.setdefault(name, value)
+	elif way == 'update':
+		h.update({name: value})
+	elif way == 'append':
+		h.append(name, value)
+	elif way == 'parse':
+		h.parse(name.encode('ascii') + b': ' + value)
+	elif way == 'assign':
+		d = dict((k, bytes(v)) for k, v in dict.items(h))
+		d[name] = value
+		m.headers = d
+	elif way == 'merge':
+		h.merge({name: value})
+	elif way == 'set_element':
+		main, _, params = value.decode('latin-1').partition(';')
+		pairs = dict((k.strip(), v.strip().strip('"')) for k, _, v in (p.partition('=') for p in params.split(';') if p.strip()))
+		if pairs:
+			h.set_element(name, main.strip(), pairs)
+		else:
+			h.set_element(name, main.strip())
+	else:
+		raise ValueError(way)
+
+
+HVIA_WAYS = ['item-bytes', 'item-text', 'setdefault', 'update', 'append', 'parse', 'assign', 'merge', 'set_element']
+
+
+def _hrm(m, way, name):
+	h = m.headers
+	if way == 'pop':
+		h.pop(name)
+	elif way == 'pop-default':
+		h.pop(name, None)
+	elif way == 'del':
+		del h[name]
+	elif way == 'clear':
+		h.clear()
+	elif way == 'set-empty':
+		m.headers = {}
+	elif way == 'assign-without':
+		m.headers = dict((k, bytes(v)) for k, v in dict.items(h) if k.lower() != name.lower())
+	else:
+		raise ValueError(way)
+
+
+HRM_WAYS = ['pop', 'pop-default', 'del', 'clear', 'set-empty', 'assign-without']
+FRAMING_NAMES = ['Content-Length', 'Transfer-Encoding', 'Content-Encoding', 'Content-Type', 'Connection', 'Trailer', 'Host', 'Date', 'Accept-Ranges', 'X-Absent']
+
+
+def _attrs(o):
+	for n in dir(o):
+		if not n.startswith('_'):
+			v = getattr(o, n)
+			if not callable(v):
+				repr(v)
+
+
+def _next_all(o):
+	for _ in range(100000):
+		try:
+			next(o)
+		except StopIteration:
+			return
+
+
+def _hget(h):
+	for n in FRAMING_NAMES:
+		for f in (lambda: h[n], lambda: h.get(n), lambda: h.getbytes(n), lambda: h.element(n), lambda: h.elements(n), lambda: h.values(n), lambda: h.get_element(n), lambda: h.get_element(n, 'chunked')):
+			try:
+				f()
+			except Exception:
+				pass
+	list(h.items()), list(h.keys()), list(h.values())
+
+
+OBSERVERS = {
+	'repr': repr, 'str': str, 'bytes': bytes, 'len': len, 'bool': bool, 'hash': hash, 'int': int, 'tuple': tuple, 'dict': dict, 'sorted': sorted, 'format': format,
+	'iter': lambda o: list(iter(o)), 'iter2': lambda o: (list(iter(o)), list(iter(o))), 'join': lambda o: b''.join(o), 'compose': lambda o: o.compose(), 'next-all': _next_all,
+	'unicode': lambda o: o.__unicode__(), 'tell': lambda o: o.tell(), 'attrs': _attrs, 'get': _hget, 'copy': _copy.copy, 'deepcopy': _copy.deepcopy,
+	'in': lambda o: [(n in o, n.encode('ascii') in o) for n in FRAMING_NAMES + ['x']],
+	'eq-self': lambda o: o == o, 'ne-self': lambda o: o != o, 'eq-bytes': lambda o: (o == b'hello', b'hello' == o), 'eq-text': lambda o: (o == 'hello', 'hello' == o),
+	'eq-other': lambda o: (o == None, o == 200, o == (1, 1), o == {}, o == [], o == type(o)()),  # noqa: E711
+	'ne': lambda o: (o != b'hello', b'hello' != o, o != 'hello', o != None, o != 200, o != (1, 1), o != {}),  # noqa: E711
+	'getvalue': lambda o: o.getvalue(), 'conditions': lambda o: list(o.range_conditions()),
+}
+for _name, _f in (('lt', lambda a, b: a < b), ('le', lambda a, b: a <= b), ('gt', lambda a, b: a > b), ('ge', lambda a, b: a >= b)):
+	def _cmp(o, _f=_f):
+		for other in (b'hello', 'hello', 200, (1, 1), o, 404.0):
+			for x, y in ((o, other), (other, o)):   # the operator and its reflected form
+				try:
+					_f(x, y)
+				except Exception:
+					pass
+	OBSERVERS[_name] = _cmp
+
+_COMMON = ['repr', 'str', 'bytes', 'hash', 'eq-self', 'ne-self', 'eq-bytes', 'eq-text', 'eq-other', 'ne', 'lt', 'le', 'gt', 'ge', 'copy', 'deepcopy', 'attrs', 'format', 'bool', 'unicode']
+OBS_TARGETS = {
+	'm': _COMMON + ['compose'],
+	'h': _COMMON + ['len', 'iter', 'sorted', 'dict', 'in', 'get', 'compose'],
+	'b': _COMMON + ['len', 'iter', 'iter2', 'join', 'compose', 'next-all', 'in', 'tell', 'sorted'],
+	'c': ['repr', 'attrs', 'copy', 'deepcopy', 'eq-self', 'hash', 'bool', 'conditions'],
+	's': _COMMON + ['int'],       # the status of a response / the method of a request
+	'u': _COMMON + ['tuple', 'dict'],   # the URI of a request / the request of a response
+	'v': _COMMON + ['tuple', 'iter', 'int'],
+	'tr': ['repr', 'bytes', 'bool', 'len', 'iter', 'attrs', 'copy', 'eq-other'],
+	'fd': ['repr', 'len', 'iter', 'getvalue', 'copy', 'in', 'sorted', 'tell', 'bool', 'eq-other', 'hash'],
+	'bcopy': ['bytes', 'len', 'iter', 'bool', 'repr', 'str', 'eq-bytes', 'next-all'],
+	'bwrap': ['bytes', 'len', 'iter', 'bool', 'repr', 'str', 'eq-bytes', 'next-all'],
+}
+
+
+def _observe(m, c, target, name):
+	from types import GeneratorType
+	from httoop.messages.body import Body
+	try:
+		if target == 'm':
+			o = m
+		elif target == 'h':
+			o = m.headers
+		elif target == 'b':
+			o = m.body
+		elif target == 'c':
+			o = c
+		elif target == 's':
+			o = m.status if hasattr(m, 'status') else m.method
+		elif target == 'u':
+			o = m.uri if hasattr(m, 'uri') else c.request
+		elif target == 'v':
+			o = m.protocol
+		elif target == 'tr':
+			o = m.body.trailer
+		elif target == 'fd':
+			o = m.body.fd   # the object the caller handed over (or the buffer the library made of it)
+			if isinstance(o, GeneratorType) or type(o) is type(iter([])) or (hasattr(o, 'fileno') and name in ('iter', 'sorted', 'in', 'copy')):
+				# running the caller's generator / reading the caller's file through its own interface is a use, not an observation
+				name = 'repr'
+		elif target in ('bcopy', 'bwrap'):
+			fd = m.body.fd
+			if isinstance(fd, GeneratorType) or type(fd) is type(iter([])):
+				# two Body objects around ONE generator: whichever is iterated first runs it (and keeps the pieces for itself).  A generator handed to two
+				# consumers is the caller's problem (see 'other' in _seq_mut): the second Body is made and looked at, not iterated
+				name = 'repr'
+			o = _copy.copy(m.body) if target == 'bcopy' else Body(m.body)
+		else:
+			raise ValueError(target)
+		OBSERVERS[name](o)
+	except Exception:
+		pass
+
+
+def target_syntax(target):
+	"""origin-form of RFC 7230 section 5.3.1 read with RFC 3986: 1*( "/" *pchar ) [ "?" *( pchar / "/" / "?" ) ]; None = fine.
+	(other forms - '*', absolute-form - do not start with a slash and are not generated here)"""
+	if not target.startswith(b'/'):
+		return None
+	pchar = set(b"abcdefghijklmnopqrstuvwxyzABCDEFGHIJKLMNOPQRSTUVWXYZ0123456789-._~!$&'()*+,;=:@")
+	path, q, query = target.partition(b'?')
+	for part, extra, what in ((path, b'/', 'path'), (query, b'/?', 'query')):
+		i = 0
+		while i < len(part):
+			ch = part[i]
+			if ch == 0x25:
+				if len(part) < i + 3 or any(x not in cr.HEXDIG for x in part[i + 1:i + 3]):
+					return 'the %s of the request target %r has a %% that is not followed by two hex digits' % (what, target[:80])
+				i += 3
+				continue
+			if ch not in pchar and ch not in extra:
+				return 'the %s of the request target %r contains the octet %r, which is not allowed there (RFC 3986)' % (what, target[:80], bytes([ch]))
+			i += 1
+	return None
+
+
+def _hx(text, charset='utf-8'):
+	return text.encode(charset).hex()
+
+
+def _text_shapes(text):
+	"""content given as TEXT: one str, and str pieces of lists / tuples / generators (alone, repeated, mixed with octet pieces and empty pieces)"""
+	h = _hx(text)
+	return [{'t': 'text', 'items': [h]},
+		{'t': 'list', 'items': [h, _hx('!')], 'strs': [True, True]},
+		{'t': 'gen', 'items': [h], 'strs': [True]},
+		{'t': 'tuple', 'items': [b'\xff\xfe'.hex(), h, ''], 'strs': [False, True, False]},
+		{'t': 'list', 'items': [h, h, h], 'strs': [True, True, True]},
+		{'t': 'gen', 'items': [h, b'\r\n'.hex(), h], 'strs': [True, False, True]}]
+
+
+def gen_classes4(rng, tier):
+	big = tier == 'thorough'
+	cases = []
+	two = [['p', 1000], ['c']]
+	four = two + two
+	ctype = lambda v: [['Content-Type', v.encode('latin-1').hex()]]   # noqa: E731
+
+	# (9a) the announced media type against content supplied as text: Content-Length framing everywhere, chunked for one case in three
+	for i, v in enumerate(ANNOUNCED):
+		for j, shape in enumerate(_text_shapes(NONASCII[i % len(NONASCII)])):
+			for kind in ('resp', 'req'):
+				cases.append(_msg(kind, dict(shape), hdrs=ctype(v), ops=four))
+				if (i + j) % 3 == 0 or big:
+					cases.append(_msg(kind, dict(shape), chunked=True, hdrs=ctype(v), ops=four))
+		if i % 4 == 0:
+			for coding in ('gzip', 'deflate'):
+				cases.append(_msg('resp', _text_shapes(NONASCII[i % len(NONASCII)])[1], hdrs=ctype(v), coding=coding, ops=four))
+	# (the shortest form: one text piece of one character, announced in a charset with one octet per character)
+	cases.append(_msg('resp', {'t': 'list', 'items': [_hx('\xe9')], 'strs': [True]}, hdrs=ctype('a/b;charset=latin1'), ops=two))
+	for i, v in enumerate(ANNOUNCED_META):
+		shapes = _text_shapes(NONASCII[(i + 1) % len(NONASCII)])
+		for j, shape in enumerate(shapes if big else (shapes[1 + i % 2], shapes[2 + i % 4])):
+			for kind in ('resp', 'req'):
+				cases.append(_msg(kind, dict(shape), hdrs=ctype(v), ops=four))
+	# long text: more than one block, and the length of the two encodings differs by thousands
+	for v in ('text/plain; charset=ISO-8859-1', 'text/plain; charset=utf-16'):
+		for t, n in (('list', 5000), ('gen', 2048), ('text', 4096)):
+			body = {'t': t, 'items': [_hx('\xe9' * n)]}
+			if t != 'text':
+				body['strs'] = [True]
+			cases.append(_msg('resp', body, hdrs=ctype(v), ops=four, nocoq=True))
+	# the charset of the BODY (Body.encoding, what text is encoded in) set by the caller, with and without an announced one that agrees / differs
+	for i, (cs, text) in enumerate((('ISO-8859-1', 'grüße'), ('utf-16', 'héllo'), ('cp1251', 'плохо'), ('shift_jis', '日本語'))):
+		for j, v in enumerate((None, 'text/plain; charset=%s' % cs, 'text/plain; charset=UTF-8', 'text/plain; charset=utf-32', 'application/octet-stream')):
+			for n, shape in enumerate(_text_shapes(text)[:3]):
+				kind = 'resp' if (i + j + n) % 2 else 'req'
+				cases.append(_msg(kind, dict(shape, charset=cs), chunked=(i + j + n) % 5 == 0, hdrs=ctype(v) if v else [], ops=four))
+	# ... and the field appears / changes / disappears between two uses of one message (every way to set and to remove it: see 8)
+	for i, v in enumerate(ANNOUNCED[:8] + ANNOUNCED_META[:4]):
+		for j, shape in enumerate(_text_shapes(NONASCII[i % len(NONASCII)])[1:4]):
+			kind = 'resp' if (i + j) % 3 else 'req'
+			way, rm = HVIA_WAYS[(i + j) % 6], HRM_WAYS[(i + j) % 3]
+			cases.append({'k': 'seq', 'base': _base(kind, dict(shape)), 'segs': [{'mut': [], 'ops': two}, {'mut': [['hvia', way, 'Content-Type', v.encode('latin-1').hex()]], 'ops': four},
+				{'mut': [['hrm', rm, 'Content-Type']], 'ops': two}]})
+			cases.append(_one(kind, [['hvia', way, 'Content-Type', v.encode('latin-1').hex()]], body=dict(shape), ops=four))
+
+	# (8) every way to set / remove each field the framing depends on
+	text_list = {'t': 'list', 'items': [_hx('grüße'), b' \xff'.hex()], 'strs': [True, False]}
+	fields = [('Transfer-Encoding', 'chunked'), ('Content-Encoding', 'gzip'), ('Content-Encoding', 'deflate'), ('Content-Type', 'text/plain; charset=ISO-8859-1'),
+		('Content-Length', '3'), ('Connection', 'close'), ('Trailer', 'X-T'), ('Host', 'h.example'), ('Accept-Ranges', 'bytes'), ('Date', 'Thu, 01 Jan 1970 00:00:00 GMT')]
+	for i, (name, value) in enumerate(fields):
+		for j, way in enumerate(HVIA_WAYS):
+			for kind in ('resp', 'req'):
+				if kind == 'req' and name in ('Content-Encoding', 'Content-Length', 'Accept-Ranges'):
+					continue   # D43 / D46: caller-set coding and length of a request
+				if way == 'set_element' and name in ('Date', 'Host', 'Content-Length'):
+					continue
+				spelled = (name, name.lower(), name.upper())[(i + j) % 3]
+				body = dict(text_list) if (i + j) % 2 else {'t': ('bytesio', 'file', 'gen')[j % 3], 'items': [b'hello world'.hex()], 'pos': 4}
+				cases.append(_one(kind, [['hvia', way, spelled, value.encode('latin-1').hex()]], body=body, ops=four))
+	for i, (name, value) in enumerate(fields[:7]):
+		for j, way in enumerate(HRM_WAYS):
+			for kind in ('resp', 'req'):
+				if kind == 'req' and name in ('Content-Encoding', 'Content-Length'):
+					continue
+				spelled = (name, name.lower(), name.upper())[(i + j) % 3]
+				first = [['hvia', HVIA_WAYS[(i + j) % len(HVIA_WAYS[:7])], name, value.encode('latin-1').hex()]]
+				body = dict(text_list) if (i + j) % 2 == 0 else {'t': ('bytes', 'file', 'list')[j % 3], 'items': [b'hello world'.hex()]}
+				# (a request that was prepared with Content-Length framing keeps the field: D46 through a sequence - its second use stays non-empty, so the length is rewritten)
+				cases.append({'k': 'seq', 'base': _base(kind, body), 'segs': [{'mut': first, 'ops': two}, {'mut': [['hrm', way, spelled]], 'ops': four}]})
+	# every way to supply the content
+	for kind in ('resp', 'req'):
+		for ch in (False, True):
+			ways = [({'t': 'bytes', 'items': [b'written \xff'.hex()]}, 'write'), ({'t': 'text', 'items': [_hx('grüße €')]}, 'encode'),
+				({'t': 'text', 'items': [_hx('grüße')], 'charset': 'ISO-8859-1'}, 'encode'), ({'t': 'text', 'items': [_hx('héllo')], 'charset': 'utf-16'}, 'ctor-mime'),
+				({'t': 'list', 'items': [_hx('grüße'), _hx(' €')], 'strs': [True, True]}, 'iterencode'),
+				({'t': 'list', 'items': [_hx('grüße'), _hx('ÿ')], 'strs': [True, True], 'charset': 'ISO-8859-1'}, 'iterencode')]
+			for body, how in ways:
+				cases.append({'k': 'seq', 'base': _base(kind), 'segs': [{'mut': [['body', body, how]], 'ops': ([['ch', True]] if ch else []) + four}]})
+				cases.append({'k': 'seq', 'base': _base(kind, hdrs=ctype('text/plain; charset=windows-1252')), 'segs': [{'mut': [], 'ops': two}, {'mut': [['body', body, how]], 'ops': ([['ch', ch]]) + four}]})
+
+	# (7) read-only observers: before the first use, and between two uses
+	bodies = [{'t': 'list', 'items': [_hx('grüße'), b'\xff'.hex(), ''], 'strs': [True, False, False]}, {'t': 'gen', 'items': [_hx('héllo'), b'!'.hex()], 'strs': [True, False]},
+		{'t': 'bytesio', 'items': [b'hello world'.hex()], 'pos': 4}, {'t': 'file', 'items': [b'hello file'.hex()], 'pos': 3}, {'t': 'bytes', 'items': [b'hello'.hex()]},
+		{'t': 'text', 'items': [_hx('grüße')]}, {'t': 'tuple', 'items': [b'ab'.hex(), b'cd'.hex()]}, {'t': 'gen', 'items': []}]
+	n = 0
+	walkers = ('len', 'bool', 'iter', 'iter2', 'join', 'compose', 'next-all', 'bytes', 'str', 'eq-bytes', 'in', 'sorted', 'copy', 'deepcopy', 'unicode', 'format')
+	for target in sorted(OBS_TARGETS):
+		for name in OBS_TARGETS[target]:
+			for ki, kind in enumerate(('resp', 'req')):
+				n += 1
+				if target in ('m', 'v', 'tr') and not big and ((n - 1) // 2 + ki) % 2:
+					continue   # the same class for both kinds of message: alternate
+				if target == 'b' and (big or name in walkers):
+					picks = bodies[:4]   # what walks the content: every kind of source
+				elif target in ('fd', 'bcopy', 'bwrap'):
+					picks = [bodies[n % 4], bodies[(n + 1 + ki) % 4]]
+				else:
+					picks = [bodies[n % len(bodies)]]
+				for bi, body in enumerate(picks):
+					framing = (n + bi) % 3
+					kw = {'coding': 'gzip'} if framing == 2 and kind == 'resp' else {}
+					ops = ([['ch', True]] if framing == 1 else []) + four
+					if ((n - 1) // 4 + ki + bi) % 2 or big:
+						cases.append({'k': 'seq', 'base': _base(kind, dict(body), **kw), 'segs': [{'mut': [['obs', target, name]], 'ops': ops}]})
+					if not ((n - 1) // 4 + ki + bi) % 2 or big:
+						cases.append({'k': 'seq', 'base': _base(kind, dict(body), **kw), 'segs': [{'mut': [], 'ops': ops[:-2]}, {'mut': [['obs', target, name]], 'ops': two + [['c']]}]})
+	# random sequences (class 1) with observers after the modifications of every segment
+	allobs = [(t, nm) for t in sorted(OBS_TARGETS) for nm in OBS_TARGETS[t]]
+	for _ in range(4000 if big else 120):
+		c = rseq(rng, tier)
+		for seg in c['segs']:
+			for _ in range(rng.choice([0, 1, 1, 2, 4])):
+				seg['mut'].append(['obs'] + list(rng.choice(allobs)))
+		cases.append(c)
+
+	# (9b) metacharacters of the neighbouring components in path segments, query names and values (the target must stay ONE valid origin-form target)
+	for i, ch in enumerate(META):
+		cases.append(_msg('req', {'t': 'bytes', 'items': [b'hello'.hex()]}, chunked=i % 2 == 0, segs=['', 'a' + ch + 'b', ch], query=[['k' + ch, 'v' + ch + 'w'], [ch, ch]], ops=four))
+		cases.append(_msg('req', {'t': 'bytes', 'items': [b'hello'.hex()]}, segs=['', ch + ch, 'x'], query=[[ch + ch, '']], method='PUT', ops=two))
+	for i, name in enumerate(RESERVED_NAMES):
+		cases.append(_msg('req', {'t': 'list', 'items': [_hx('grüße')], 'strs': [True]}, chunked=i % 2 == 1, segs=['', name], query=[[name, 'UTF-16'], ['x', name]], ops=four))
+	# (9c) ... in field values and trailer values; names that contain or resemble the framing names
+	for i, ch in enumerate(META + RESERVED_NAMES):
+		v = ('a' + ch + 'b').encode('latin-1').hex()
+		for kind in ('resp', 'req'):
+			cases.append(_msg(kind, {'t': 'bytes', 'items': [b'hello'.hex()]}, chunked=(i % 2 == 0) == (kind == 'resp'), hdrs=[['X-Custom', v], ['Cookie' if kind == 'req' else 'Set-Cookie', v]],
+				trailer=[['X-T', v]] if (i % 2 == 0) == (kind == 'resp') else [], ops=four))
+	for i, name in enumerate(['X-Content-Length', 'Content-Length-X', 'Content-Lengt', 'Transfer-Encoding-X', 'X-Transfer-Encoding', 'Chunked', 'Content-Encodin', 'Content-Encoding-X', 'Charset', 'Boundary', 'Q', 'Bytes',
+			'Content-Typ', 'Content-Type-X', 'Trailers', 'Connection-X', 'Te', 'Content_Length', 'Content.Length', 'Transfer_Encoding']):
+		for kind in ('resp', 'req'):
+			v = ('chunked', '99', 'gzip', 'text/plain; charset=utf-16', 'close')[i % 5]
+			cases.append(_one(kind, [['hset', name, v.encode('ascii').hex()]], body={'t': 'list', 'items': [_hx('grüße')], 'strs': [True]}, chunked=i % 3 == 0, ops=four))
+	# (9d) sets with one invalid member: the whole field is refused (InvalidHeader) or the message is framed correctly - never a coded / unframed half
+	for v in ('gzip, x-unknown', 'x-unknown, gzip', 'gzip, deflate', 'gzip, identity', 'deflate;q=1, gzip', 'gzip, ', 'gzip, "', 'gzip, gzip', 'identity, gzip', 'gzip; x-unknown', 'gzip x-unknown', 'gzip,\tdeflate'):
+		cases.append(_one('resp', [['hset', 'Content-Encoding', v.encode('latin-1').hex()]], ops=four))
+	for name, vals in (('Connection', ['close, x-unknown', 'x-unknown, close', 'close, ', 'close; q=1', 'keep-alive, close', 'Transfer-Encoding', 'Content-Length, close']),
+			('Trailer', ['X-T, Content-Length', 'Content-Length', 'X-T, ', 'X-T, Transfer-Encoding', 'x-t,X-T'])):
+		for i, v in enumerate(vals):
+			for kind in ('resp', 'req'):
+				cases.append(_one(kind, [['hset', name, v.encode('latin-1').hex()]], chunked=(i % 2 == 0), ops=four, **({'trailer': [['X-T', b'tv'.hex()]]} if name == 'Trailer' else {})))
 	return cases
